@@ -8,7 +8,7 @@ classifies each: accept with the stored tuples / reject (with the offending line
 silent about: if accepted, the value is fixed).  Here every file is given to the real loader; the loaded relation is
 compared inside Datalog with program-text constants built from the specification's values (floats: the printed value
 must be a nearest binary32 of the specification's exact rational)."""
-import concurrent.futures as cf, json, math, os, random, re, shutil, time
+import concurrent.futures as cf, threading, json, math, os, random, re, shutil, time
 from .. import build, iofmt as io, known, tlc
 from ..common import SPEC, NCPU, Result, workdir, seed, log
 from ..evidence import finish
@@ -16,6 +16,7 @@ from ..evidence import finish
 PID = "C18"
 ARGS = ["--no-preprocessor"]
 NPROC = [0]
+_plock = threading.Lock()
 
 def opts(v, path):
     o = ["IO=file", "filename=%s" % io.dl_string(path)]
@@ -74,7 +75,8 @@ def run_set(vs, d, outs, kind):
     if not vs:
         return
     _tag[0] += 1
-    NPROC[0] += 1
+    with _plock:
+        NPROC[0] += 1
     path = os.path.join(d, "%s_%d.dl" % (kind, _tag[0]))
     with open(path, "w") as f:
         f.write(file_program(vs, d) if kind == "load" else const_program(vs))
